@@ -17,8 +17,8 @@
    gives every occurrence of a label its dimension), the operands are well formed arrays,
    the output labels are distinct and occur in the inputs, and labels are codes >= 4 (the
    codes 0..3 are the separators , -> blank and dot of the string encoding).
-   tensordot: the conversion to an equation is covered by BOUNDED theorems (3) and, if
-   present at the end of the file, by `C11_tensordot_*` universal theorems.
+     (0c) C11_tensordot_correct / C11_tensordot_int_correct   tensordot for every valid
+                                   non-negative axes specification (pairs of axis lists, or an int)
    Further results kept because they are what the chain is made of and because they
    localise a future failure:
    (1) for ALL inputs: the structure of the plans (classification of the labels is a
@@ -59,6 +59,55 @@ Theorem C11_einsum1_correct : forall (sz : nat -> nat) lhs out t,
   einsum_single (eq1 lhs out) t = Some (einsum_ref [lhs] out [t]).
 Proof. exact dg_einsum_single. Qed.
 Print Assumptions C11_einsum1_correct.
+
+
+(* the same two theorems with the executable shape-consistency predicate `consistent`
+   (ranks match, arrays well formed, every occurrence of a label has the same dimension >= 1,
+   output labels distinct and present in the inputs) as the only hypothesis besides the encoding *)
+Theorem C11_einsum2_correct_consistent : forall ta tb out a b,
+  consistent [ta; tb] out [a; b] = true ->
+  Forall (fun c => 4 <= c) ta -> Forall (fun c => 4 <= c) tb ->
+  einsum2 (eq2 ta tb out) a b = Some (einsum_ref [ta; tb] out [a; b]).
+Proof. exact br_einsum2_consistent. Qed.
+Print Assumptions C11_einsum2_correct_consistent.
+
+Theorem C11_einsum1_correct_consistent : forall ta out a,
+  consistent [ta] out [a] = true -> Forall (fun c => 4 <= c) ta ->
+  einsum_single (eq1 ta out) a = Some (einsum_ref [ta] out [a]).
+Proof. exact br_einsum1_consistent. Qed.
+Print Assumptions C11_einsum1_correct_consistent.
+
+(* (0c) tensordot, every valid non-negative axes specification: pairs of duplicate-free, in-range,
+   equally long axis lists whose dimensions match; and every integer `axes`.  `tensordot_ref` is
+   the definition (contract a's axes xa[k] with b's axes xb[k]; free axes of a then of b). *)
+Theorem C11_tensordot_correct : forall xa xb a b,
+  NoDup xa -> NoDup xb ->
+  Forall (fun j => j < length (tshape a)) xa -> Forall (fun j => j < length (tshape b)) xb ->
+  length xa = length xb -> dims_at (tshape a) xa = dims_at (tshape b) xb ->
+  wf_tensor a = true -> wf_tensor b = true ->
+  tensordot (AxPair (zs xa) (zs xb)) a b = Some (tensordot_ref xa xb a b).
+Proof. exact td_tensordot_correct_dims. Qed.
+Print Assumptions C11_tensordot_correct.
+
+Theorem C11_tensordot_int_correct : forall n a b,
+  n <= length (tshape a) -> n <= length (tshape b) ->
+  dims_at (tshape a) (seq (length (tshape a) - n) n) = dims_at (tshape b) (seq 0 n) ->
+  wf_tensor a = true -> wf_tensor b = true ->
+  tensordot (AxInt n) a b =
+  Some (tensordot_ref (seq (length (tshape a) - n) n) (seq 0 n) a b).
+Proof. exact td_tensordot_int_correct. Qed.
+Print Assumptions C11_tensordot_int_correct.
+
+(* the equation the tensordot parser builds, and its reference semantics *)
+Theorem C11_tensordot_equation : forall sa sb xa xb,
+  NoDup xa -> NoDup xb ->
+  Forall (fun j => j < length sa) xa -> Forall (fun j => j < length sb) xb ->
+  length xa = length xb ->
+  (forall k, k < length xa -> nth (nth k xa 0) sa 0 = nth (nth k xb 0) sb 0) ->
+  tdot_equation (AxPair (zs xa) (zs xb)) sa sb
+  = Some (eq2 (td_ia (length sa)) (td_ib (length sa) (length sb) xa xb) (td_io (length sa) (length sb) xa xb)).
+Proof. exact td_equation. Qed.
+Print Assumptions C11_tensordot_equation.
 
 (* the two execution paths separately (which one is taken is decided by p2_con: the labels
    of size <> 1 shared by both operands and absent from the output) *)
